@@ -321,9 +321,24 @@ impl World {
             }
         }
         for (tok, id, name) in new_ids {
-            if let Some((other, _)) = self.tok_id.iter().find(|(_, i)| **i == id) {
-                let live = self.model.st.tok_attr(*other).map(|(d, a)| format!("live {d}::{}", a.name)).unwrap_or("a deleted attribute".to_string());
-                fails.push(("C03.b", format!("{what}: new attribute {name} received id {id}, the id of {live}")));
+            let clash = self.tok_id.iter().find(|(_, i)| **i == id).map(|(t, _)| *t);
+            if let Some(other) = clash {
+                let live = self.model.st.tok_attr(other).map(|(d, a)| format!("live {d}::{}", a.name));
+                fails.push(("C03.b", format!("{what}: new attribute {name} received id {id}, the id of {}", live.clone().unwrap_or("a deleted attribute".to_string()))));
+                if live.is_none() {
+                    // the listed finding (id of a DELETED attribute handed out again): from here on
+                    // the implementation treats the new attribute as the continuation of the
+                    // deleted one. The model follows it - the new attribute takes over the old
+                    // token - so that every other property can still be checked in these histories.
+                    for d in self.model.st.dims.values_mut() {
+                        for a in d.attrs.iter_mut() {
+                            if a.tok == tok {
+                                a.tok = other;
+                            }
+                        }
+                    }
+                    continue;
+                }
             }
             self.tok_id.insert(tok, id);
         }
@@ -392,6 +407,10 @@ impl World {
                         Some(k) if k.sk == key.sk => {
                             if k.dk != key.dk && m.hybrid == k.hybrid() {
                                 self.fail("C11.a", format!("after {op}: ML-KEM key of secret #{i} of {} changed", self.show_right(&r)));
+                            } else if k.dk != key.dk && key.hybrid() == m.hybrid {
+                                // the model agrees that this secret changed flavour (an update
+                                // dropped its hybridization): the binding follows
+                                self.ver_key.insert(m.ver, key.clone());
                             }
                         }
                         Some(_) => self.fail(side, format!("after {op}: secret #{i} of {} is not the secret that was there before", self.show_right(&r))),
